@@ -215,3 +215,18 @@ Example dom_string_example :
   dom_string {| t_ns := [x6e]; t_obj := [x6f]; t_rel := [x72]; t_sid := None;
                 t_sset := Some {| ss_ns := [x61]; ss_obj := [x62]; ss_rel := [x63] |} |} = true.
 Proof. reflexivity. Qed.
+
+(* ---- C13: no decoder has a panicking outcome, whatever bytes or fields it is given ---- *)
+Lemma sset_from_string_total s : sset_from_string s <> Panic.
+Proof. unfold sset_from_string. destruct (cut HASH s) as [[a b]|]; destruct (cut COLON _) as [[n o]|]; discriminate. Qed.
+Theorem string_decoder_total s : tuple_from_string s <> Panic.
+Proof. unfold tuple_from_string.
+  destruct (cut COLON s) as [[n r1]|]; [|discriminate]. destruct (cut HASH r1) as [[o r2]|]; [|discriminate].
+  destruct (cut AT r2) as [[r su]|]; [|discriminate]. destruct (has COLON (trim su)); [|discriminate].
+  pose proof (sset_from_string_total (trim su)). destruct (sset_from_string (trim su)); try discriminate. contradiction. Qed.
+Theorem url_query_decoder_total v : query_from_url v <> Panic.
+Proof. unfold query_from_url. destruct (vhas K_subject v); [discriminate|]. cbv zeta.
+  destruct (vhas K_subject_id v), (vhas K_ss_namespace v), (vhas K_ss_object v), (vhas K_ss_relation v); cbn; discriminate. Qed.
+Theorem url_tuple_decoder_total v : tuple_from_url v <> Panic.
+Proof. unfold tuple_from_url. pose proof (url_query_decoder_total v). destruct (query_from_url v) as [q| |]; try discriminate; [|contradiction].
+  destruct (q_sid q), (q_sset q), (q_ns q), (q_obj q), (q_rel q); discriminate. Qed.
